@@ -19,6 +19,11 @@ Property evaluation on the real code (independent of Lean):
   * errors/data of `path=`-selected parts == the matching part of the full result, for every sampled element in the
     path forms abs, abs+positions, rel, rel+positions, last-step position, `//n`, `.//n`, `/r//n`, `c//n`, `*/…/n`,
     `…/*`, and for every substitution-group member of the substitution family in all of them,
+  * identity-constraint errors of path-selected parts == what a partial run can and must report (see ASSUMPTIONS:
+    scope inside a part -> the full run's; scope = proper ancestor -> per scope instance among the selected nodes),
+    on schemas with key/unique/keyref on the root, on repeated intermediate ancestors and on the selected elements
+    (identity family), in every path form; the loop of iter_errors that re-binds the counters is ported (`loopC`,
+    Model/IdentScope.lean) and compared on every such case,
   * errors/data with max_depth == the full result above the cut.
 Known deviations are matched only through an exact prediction: the fall-back rule of get_element applied by the
 harness to schema.find (`port_get_element`, never a call of get_element) names the declaration each selected element
@@ -38,7 +43,7 @@ from harness.props import c06 as C6
 PROPS = 'XsVerif.Props.C20'
 AUDIT = 'XsVerif.Audit.C20'
 LEAN_TARGETS = ['XsVerif.Props.C20', 'drv_c20']
-LEANCHECK = ['XsVerif.Model.SchemaPaths', 'XsVerif.Model.PathEval', 'XsVerif.Model.Lazy', 'XsVerif.Lemmas.Lazy',
+LEANCHECK = ['XsVerif.Model.SchemaPaths', 'XsVerif.Model.PathEval', 'XsVerif.Model.IdentScope', 'XsVerif.Model.Lazy', 'XsVerif.Lemmas.Lazy',
              'XsVerif.Lemmas.PathEval', 'XsVerif.Props.C20']
 RULE = ('a case is one (generated schema, generated document, element path spelling | path form | path= selection | '
         'max_depth) — schemas with local declarations, references, substitution groups (members with restricted, '
@@ -50,8 +55,16 @@ TRUSTED = ['elementpath evaluates the XPath: for the generated path forms its se
            'order) is compared with the in-model evaluator on every case; on the schema the forms with a `//` step are '
            'exercised on the real code only (schema-side descendant iteration is not modelled)',
            'the abstract validator of the model is instantiated from error segments measured on the real full run']
-ASSUMPTIONS = ['errors that depend on document-wide tables (ID/IDREF, key/keyref resolution) are document-level and are left '
-               'out when a part or a depth-limited run is compared with the whole',
+ASSUMPTIONS = ['ID/IDREF errors depend on document-wide tables and are left out when a part or a depth-limited run is compared '
+               'with the whole. Identity constraints ARE compared for path-selected parts: a constraint whose scope element '
+               'lies inside a selected part -> exactly the errors of the full run for that scope instance (keyrefs included); '
+               'a key/unique whose scope is a proper ancestor of the selection (the root included) -> for every scope '
+               'instance separately, a duplicate for the node at which a value occurs for the second time among its nodes '
+               'inside the selected parts and a missing-field error for every such node of a key (evaluated by the harness '
+               'from the selector/field paths, after checking that this evaluation agrees with the full run on the whole '
+               'document); keyrefs whose scope is a proper ancestor need key nodes outside the parts and are excluded, as '
+               'are nested selections and selections that are not in document order; for max_depth cuts identity errors '
+               'are still left out',
                'namespace-declaration pseudo-attributes at the root of a separately decoded part follow the documented '
                '"single decoding process" rule (only for global elements, then all namespaces in scope) and are not compared',
                'the claim about find(path) is made for valid documents; invalid ones are explored too (same rule)',
@@ -506,6 +519,168 @@ def forms_for(doc: Doc, nid: int) -> list:
     return forms
 
 
+# ---------------------------------------------------------------------------------------------------
+# identity constraints in a path-driven run.  What a partial validation CAN and MUST report (the spec the harness
+# evaluates by itself, from the document and the selector / field paths of the constraints):
+#   * ID / IDREF tables are document-wide: excluded from every part / cut comparison;
+#   * a key / unique / keyref whose SCOPE element lies inside a selected part (the selected element itself or below):
+#     all its nodes are inside the part -> exactly the errors of the full run for that scope instance;
+#   * a key / unique whose scope element is a PROPER ANCESTOR of selected elements (between the root and the
+#     selection, the root included): decidable per scope instance among the selected nodes -> a "duplicated value" for
+#     the node at which a field tuple occurs for the second time among the nodes of that scope instance that lie in
+#     the selected parts (processing order), a "missing key field" for every such node of a key without the field;
+#     every scope instance separately (the counter of the 2nd, 3rd ... instance of a repeated ancestor starts empty);
+#   * a keyref whose scope is a proper ancestor would need the key nodes outside the parts: excluded (the run reports
+#     such references, if at all, at the root when it ends).
+IDENT_TEXT = re.compile(r"^(duplicated value \(.*?\) for Xsd\w+\(name='[^']*'\)|missing key field '[^']*'|"
+                        r"value \(.*?\) not found for Xsd\w+\(name='[^']*'\)(?: \(\d+ times\))?)")
+KEYREF_TEXT = re.compile(r"^value \(.*?\) not found for Xsd")
+
+
+def ident_text(text: str) -> Optional[str]:
+    m = IDENT_TEXT.match(text)
+    return re.sub(r"name='(?:\{[^}]*\}|[^':]*:)", "name='", m.group(1)) if m else None
+
+
+def parse_simple_selector(path: str, nsmap: dict) -> Optional[list]:
+    """a selector `p:a/p:b|p:c` -> alternatives of lists of expanded names; None: a form the harness does not evaluate"""
+    alts = []
+    for alt in path.replace(' ', '').split('|'):
+        if alt.startswith('./'):
+            alt = alt[2:]
+        steps = []
+        for st in alt.split('/'):
+            if not re.match(r'^([A-Za-z_][\w.-]*:)?[A-Za-z_][\w.-]*$', st):
+                return None
+            if ':' in st:
+                pfx, loc = st.split(':')
+                if pfx not in nsmap:
+                    return None
+                steps.append('{%s}%s' % (nsmap[pfx], loc) if nsmap[pfx] else loc)
+            else:
+                steps.append(st)          # XPath 1/2 selectors: an unprefixed name is in no namespace
+        alts.append(steps)
+    return alts
+
+
+class IdentSpec:
+    """scope instances of the key/unique constraints of one document with their selected nodes and field values"""
+
+    def __init__(self, doc: 'Doc'):
+        from xmlschema.validators import XsdKeyref
+        eg = doc.eg
+        self.ok = True
+        self.scopes: list = []          # (scope nid, identity, is_key, field attr name, [(nid, value)])
+        for nid, depth, parent, node in eg.flat:
+            g = eg.gov.get(nid)
+            if g is None:
+                continue
+            try:
+                idents = list(g.identities)
+            except Exception:  # noqa
+                continue
+            for ident in idents:
+                if isinstance(ident, XsdKeyref):
+                    continue
+                if ident.selector is None or len(ident.fields) != 1 or not re.match(r'^@[A-Za-z_][\w.-]*$', ident.fields[0].path):
+                    self.ok = False
+                    continue
+                alts = parse_simple_selector(ident.selector.path, dict(ident.namespaces))
+                if alts is None:
+                    self.ok = False
+                    continue
+                attr = ident.fields[0].path[1:]
+                nodes = []
+                for alt in alts:
+                    cur = [eg.node[nid]]
+                    for name in alt:
+                        cur = [k for c in cur for k in c['cs'] if k['tag'] == name]
+                    nodes.extend(k['id'] for k in cur)
+                vals = []
+                for i in sorted(set(nodes)):
+                    v = eg.elem[i].attrib.get(attr)
+                    if v is not None:
+                        try:
+                            v = int(v.strip())
+                        except ValueError:
+                            self.ok = False
+                    vals.append((i, v))
+                self.scopes.append((nid, ident, type(ident).__name__ == 'XsdKey', attr, vals))
+
+    def loop_events(self, doc: 'Doc', selected: list[int]) -> list:
+        """for every key/unique that has a scope instance which is a PROPER ANCESTOR of a selected element: (identity,
+        is_key, attr, j = depth of its scope, events (chain of the selected element's ancestors, node, value), and
+        whether some scope instance of it lies inside a part)"""
+        eg = doc.eg
+        by_ident: dict = {}
+        for scope, ident, is_key, attr, vals in self.scopes:
+            by_ident.setdefault(id(ident), [ident, is_key, attr, []])[3].append((scope, vals))
+        out = []
+        for ident, is_key, attr, insts in by_ident.values():
+            events = []
+            j = None
+            inside = False
+            for s_ in selected:
+                chain = doc.chain(s_)[:-1]
+                for scope, vals in insts:
+                    if eg.in_subtree(scope, s_):
+                        inside = True
+                    elif scope in chain:
+                        j = chain.index(scope)
+                        events.extend((chain, i, v) for i, v in vals if eg.in_subtree(i, s_))
+            if events:
+                out.append((ident, is_key, attr, j, events, inside))
+        return out
+
+    @staticmethod
+    def k_of(a: list, p_: list) -> int:
+        """schemas.py:1349-1352 as written"""
+        k = 0
+        for k in range(min(len(a), len(p_))):
+            if a[k] != p_[k]:
+                break
+        return k
+
+    @classmethod
+    def loop_port(cls, is_key: bool, j: int, events: list) -> list:
+        """python reading of `loopC` (Model/IdentScope.lean): the loop of iter_errors(path=…) as it is written"""
+        prev: list = []
+        seen: list = []
+        out = []
+        for chain, node, val in events:
+            if chain != prev and cls.k_of(chain, prev) <= j:
+                seen = []
+            prev = chain
+            if val is None:
+                if is_key:
+                    out.append(('missing', node))
+                continue
+            if seen.count(val) == 1:
+                out.append(('dup', node))
+            seen.append(val)
+        return out
+
+    def expected(self, eg: Any, selected: list[int]) -> list:
+        """(node id, text) of the key/unique errors a run over the parts `selected` must report"""
+        out = []
+        inpart = lambda i: any(eg.in_subtree(i, s_) for s_ in selected)  # noqa
+        for scope, ident, is_key, attr, vals in self.scopes:
+            if not (inpart(scope) or any(eg.in_subtree(s_, scope) for s_ in selected)):
+                continue
+            seen: dict = {}
+            for i, v in vals:
+                if not inpart(i):
+                    continue
+                if v is None:
+                    if is_key:
+                        out.append((i, "missing key field '@%s'" % attr))
+                    continue
+                seen[v] = seen.get(v, 0) + 1
+                if seen[v] == 2:
+                    out.append((i, ident_text('duplicated value %r for %r' % ((v,), ident))))
+        return out
+
+
 class Partial:
     """path-driven validation / decoding of one document against the matching part of its full result"""
 
@@ -522,6 +697,8 @@ class Partial:
         self.full_data: Any = None
         self.full_done = False
         self.polluted_last = 0
+        self.ident: Optional[IdentSpec] = None
+        self.ident_checked = False
 
     # ---- the real runs
     def run(self, path: str, namespaces: Any) -> list:
@@ -629,6 +806,93 @@ class Partial:
                 return True
         return False
 
+    def ident_spec(self) -> Optional[IdentSpec]:
+        """the harness's own evaluation of the key/unique constraints of the document; None when a constraint has a
+        form it does not evaluate, or when it disagrees with the FULL run (then nothing is claimed for the parts)"""
+        if not self.ident_checked:
+            self.ident_checked = True
+            eg = self.eg
+            try:
+                sp = IdentSpec(self.doc)
+            except Exception:  # noqa
+                sp = None
+            if sp is not None and sp.ok and sp.scopes:
+                pth = lambda i: C6.bare_path(self.getpath(eg.elem[i], eg.res.root, None, False, True))  # noqa
+                want = sorted((pth(i), t) for i, t in sp.expected(eg, [0]))
+                full = sorted((C6.bare_path(eg.paths[i]), ident_text(eg.canon[i][1])) for i in range(len(eg.errors))
+                              if ident_text(eg.canon[i][1]) and not KEYREF_TEXT.match(eg.canon[i][1]))
+                if want == full:
+                    self.ident = sp
+                    self.ctx.count('identity-spec:agrees-with-the-full-run')
+                else:
+                    self.ctx.count('identity-spec:differs-on-the-full-run (nothing claimed)')
+            elif sp is not None and not sp.ok:
+                self.ctx.count('identity-spec:form-not-evaluated')
+        return self.ident
+
+    def check_identities(self, case: dict, path: str, nsx: Any, selected: list[int], got: list, tag: str) -> None:
+        """the identity-constraint errors of the partial run against what such a run can and must report"""
+        ctx, eg = self.ctx, self.eg
+        sp = self.ident_spec()
+        if sp is None or not selected:
+            return
+        if selected != sorted(selected) or any(a != b and eg.in_subtree(a, b) for a in selected for b in selected):
+            ctx.count('identity:not-compared (nested selection or not in document order)')
+            return
+        pth = lambda i: C6.bare_path(self.getpath(eg.elem[i], eg.res.root, None, False, True))  # noqa
+        part_paths = [pth(s_) for s_ in selected]
+        inside = lambda q: any(q == pf or (q or '').startswith(pf + '/') for pf in part_paths)  # noqa
+        want = [(pth(i), t) for i, t in sp.expected(eg, selected)]
+        # keyrefs: only those whose scope instance is inside a selected part (then the full run's, by ownership)
+        want += [(C6.bare_path(eg.paths[i]), ident_text(eg.canon[i][1])) for i, o in enumerate(eg.owner)
+                 if KEYREF_TEXT.match(eg.canon[i][1]) and any(eg.in_subtree(o, s_) for s_ in selected)]
+        have = [(q, ident_text(c[1])) for q, c in got if ident_text(c[1])
+                and not (KEYREF_TEXT.match(c[1]) and not inside(q))]
+        # the loop as it is written, per constraint with an ancestor scope: Lean `loopC` (driver) and its python reading
+        loops = sp.loop_events(self.doc, selected)
+        id_of = {pth(i): i for i, _, _, _ in eg.flat}
+        as_written = [(q, t) for q, t in want]
+        for ident, is_key, attr, j, events, inside_too in loops:
+            name = ident_text('duplicated value (0,) for %r' % ident).split(' for ')[1]
+            mine = lambda t: t.endswith(' for ' + name) or (is_key and t == "missing key field '@%s'" % attr)  # noqa
+            port = IdentSpec.loop_port(is_key, j, events)
+            if not inside_too:
+                # replace the spec's errors of this constraint by those of the loop as written
+                as_written = [(q, t) for q, t in as_written if not mine(t)]
+                as_written += [(pth(n), ident_text('duplicated value %r for %r' % ((dict((e[1], e[2]) for e in events)[n],), ident))
+                                if kind == 'dup' else "missing key field '@%s'" % attr) for kind, n in port]
+                if self.reqs is not None:
+                    real = sorted([('dup' if t.startswith('dup') else 'missing'), id_of.get(q, -1)]
+                                  for q, t in have if mine(t) and not KEYREF_TEXT.match(t))
+                    self.reqs.append({'op': 'identloop', 'key': is_key, 'j': j,
+                                      'events': [{'chain': c, 'node': n, 'val': v} for c, n, v in events]})
+                    self.pend.append(('identloop', dict(case, api='iter_errors(path): identity loop', identity=name), real, None))
+        if sorted(want) == sorted(have):
+            ctx.count('identity:' + ('same' if want else 'none'))
+            if want:
+                ctx.case(dict(case, api='iter_errors(path): identity errors'), True, 'api:partial-identity')
+            return
+        mixed = len({len(self.doc.chain(s_)) for s_ in selected}) > 1
+        if mixed and sorted(as_written) == sorted(have):
+            # C20-F7: the selection mixes depths and the run reports exactly what the loop as written yields
+            # (k = min-1 when one chain of ancestors is a prefix of the other: the counter of the unchanged ancestor is emptied)
+            ctx.known_hit('C20-F7', dict(case, api='iter_errors(path): identity errors'),
+                          {'kind': 'partial-identity', 'got': sorted(have), 'want': sorted(want)})
+            ctx.count('identity:C20-F7')
+            return
+        # not claimed where the elements are known to be processed with another declaration / scope (F1, F3, F4, F6)
+        lk = self.lookups(path, nsx, selected)
+        if self.polluted_last or self.unscoped(selected) or \
+                any(isinstance(lk[s_], Exception) or not gov_equal(lk[s_], eg.gov.get(s_)) for s_ in selected):
+            ctx.count('identity:not-compared (deviating lookup or scope: known findings)')
+            return
+        ctx.failure('identity-constraint errors of the selected part(s) differ from what a partial validation must report',
+                    dict(case, api='iter_errors(path): identity errors'),
+                    {'kind': 'partial-identity', 'got': sorted(have), 'want': sorted(want),
+                     'rule': 'scope inside a part: the errors of the full run; scope = proper ancestor: duplicates / '
+                             'missing key fields among the selected nodes of each scope instance; keyrefs of ancestor '
+                             'scopes and ID/IDREF excluded'})
+
     def evaluate(self, case: dict, path: str, nsx: Any, selected: list[int], wild_path: bool, has_pos: bool,
                  tag: str) -> Optional[list]:
         """errors of `iter_errors(path=)` against the matching part of the full result; returns the errors"""
@@ -638,6 +902,7 @@ class Partial:
         except Exception as ex:  # noqa
             ctx.failure('partial validation raised', case, {'exception': repr(ex)})
             return None
+        self.check_identities(case, path, nsx, selected, got, tag)
         truth = truth_part(eg, selected)
         got_ns = non_stateful([c for _, c in got])
         if got_ns == non_stateful([c for _, c, _ in truth]):
@@ -1072,6 +1337,14 @@ def compare(ctx: Ctx, reqs: list, pend: list, drv: Optional[Driver]) -> None:
         elif kind == 'get_element':
             if m['id'] != real:
                 ctx.mismatch('get_element', case, real, m['id'])
+        elif kind == 'identloop':
+            ctx.count('model-tie:identity-loop')
+            # the loop as it is written, or as repaired by C20-ancestors-first-difference.patch (they differ on
+            # selections of mixed depth only: finding C20-F7, judged by check_identities)
+            if sorted(m['errs']) != real and sorted(m['errs_repaired']) != real:
+                ctx.mismatch('identity errors of the path-driven loop (loopC)', case, real, sorted(m['errs']))
+            elif sorted(m['errs']) != sorted(m['errs_repaired']):
+                ctx.count('model-tie:identity-loop:' + ('as-written' if sorted(m['errs']) == real else 'as-repaired'))
         elif kind == 'select':
             ctx.count('model-tie:iterfind')
             if m['ids'] != real:
@@ -1305,6 +1578,113 @@ def subst_family(ctx: Ctx, drv: Optional[Driver], n_schemas: Optional[int] = Non
 
 
 # ------------------------------------------------------------------------------------------------
+# identity constraints on intermediate repeated ancestors, on the root and on the selected elements themselves:
+# r( a+( x+( y* ), z*, g*( w+ ) ) ) with key/unique/keyref declared on a (selector x | x|z), unique/key on r
+# (selector a/x, a/g/w or a/z), unique on x (selector y), key on g (selector w); small value ranges so that duplicates
+# fall under the 1st, 2nd and 3rd instance of the repeated ancestors; every element selected in every path form.
+
+def gen_ident(rng) -> Any:
+    spec = L.Spec()
+    spec.tns = rng.random() < 0.5
+    t = 't:' if spec.tns else ''
+    head = '<xs:schema xmlns:xs="http://www.w3.org/2001/XMLSchema"'
+    if spec.tns:
+        head += f' targetNamespace="{L.TNS}" xmlns:t="{L.TNS}" elementFormDefault="qualified"'
+    head += '>\n'
+    on_x = rng.random() < 0.6
+    on_g = rng.random() < 0.7
+    a_kind = rng.choice(['key', 'key', 'unique'])
+    a_sel = rng.choice([f'{t}x', f'{t}x|{t}z', f'{t}x'])
+    a_ref = rng.random() < 0.5
+    r_kind = rng.choice([None, 'unique', 'unique', 'key'])
+    r_sel = rng.choice([f'{t}a/{t}x', f'{t}a/{t}g/{t}w', f'{t}a/{t}z'])
+    idattr = '<xs:attribute name="id" type="xs:int"/><xs:attribute name="rf" type="xs:int"/>'
+    uy = f'<xs:unique name="uy"><xs:selector xpath="{t}y"/><xs:field xpath="@k"/></xs:unique>' if on_x else ''
+    kg = f'<xs:key name="kg"><xs:selector xpath="{t}w"/><xs:field xpath="@id"/></xs:key>' if on_g else ''
+    kra = (f'<xs:keyref name="kra" refer="{t}ka"><xs:selector xpath="{t}x"/><xs:field xpath="@rf"/></xs:keyref>'
+           if a_ref else '')
+    ur = (f'<xs:{r_kind} name="ur"><xs:selector xpath="{r_sel}"/><xs:field xpath="@id"/></xs:{r_kind}>'
+          if r_kind else '')
+    spec.xsd = (
+        head + ' <xs:element name="r"><xs:complexType><xs:sequence>\n'
+        '  <xs:element name="a" maxOccurs="unbounded"><xs:complexType><xs:sequence>\n'
+        '    <xs:element name="x" maxOccurs="unbounded"><xs:complexType><xs:sequence>\n'
+        '      <xs:element name="y" minOccurs="0" maxOccurs="unbounded"><xs:complexType><xs:attribute name="k" type="xs:int"/>'
+        '<xs:attribute name="v" type="xs:int"/></xs:complexType></xs:element>\n'
+        f'     </xs:sequence>{idattr}</xs:complexType>{uy}</xs:element>\n'
+        f'    <xs:element name="z" minOccurs="0" maxOccurs="unbounded"><xs:complexType>{idattr}</xs:complexType></xs:element>\n'
+        '    <xs:element name="g" minOccurs="0" maxOccurs="unbounded"><xs:complexType><xs:sequence>\n'
+        f'      <xs:element name="w" maxOccurs="unbounded"><xs:complexType>{idattr}</xs:complexType></xs:element>\n'
+        f'     </xs:sequence></xs:complexType>{kg}</xs:element>\n'
+        '   </xs:sequence><xs:attribute name="n" type="xs:int"/></xs:complexType>\n'
+        f'   <xs:{a_kind} name="ka"><xs:selector xpath="{a_sel}"/><xs:field xpath="@id"/></xs:{a_kind}>{kra}\n'
+        '  </xs:element>\n'
+        f' </xs:sequence></xs:complexType>{ur}</xs:element>\n</xs:schema>\n')
+    style = rng.choice(['default', 'prefix']) if spec.tns else 'plain'
+    pre = 't:' if style == 'prefix' else ''
+    rangek = rng.choice([2, 3, 5])
+    pmiss = rng.choice([0.0, 0.1, 0.25])
+    pbad = rng.choice([0.0, 0.0, 0.1])
+
+    def ids() -> str:
+        out = ''
+        if rng.random() >= pmiss:
+            out += f' id="{rng.randint(1, rangek)}"'
+        if rng.random() < 0.3:
+            out += f' rf="{rng.randint(1, rangek + 1)}"'
+        return out
+    body = ''
+    for _ in range(rng.choice([1, 2, 2, 3, 3])):
+        body += f'<{pre}a>'
+        for _ in range(rng.choice([1, 2, 3, 4])):
+            ys = ''.join(f'<{pre}y k="{rng.randint(1, rangek)}"' + (' v="zz"' if rng.random() < pbad else '') + '/>'
+                         for _ in range(rng.choice([0, 0, 1, 2, 3])))
+            body += f'<{pre}x{ids()}>{ys}</{pre}x>'
+        for _ in range(rng.choice([0, 0, 1, 2])):
+            body += f'<{pre}z{ids()}/>'
+        for _ in range(rng.choice([0, 1, 1, 2])):
+            body += f'<{pre}g>' + ''.join(f'<{pre}w{ids()}/>' for _ in range(rng.choice([1, 2, 3]))) + f'</{pre}g>'
+        body += f'</{pre}a>'
+    decl = {'default': f' xmlns="{L.TNS}"', 'prefix': f' xmlns:t="{L.TNS}"', 'plain': ''}[style]
+    return spec, (f'<{pre}r{decl}>' + body + f'</{pre}r>').encode()
+
+
+def identity_family(ctx: Ctx, drv: Optional[Driver], n_schemas: Optional[int] = None) -> None:
+    n_schemas = n_schemas or ctx.pick(40, 400)
+    for _ in range(n_schemas):
+        spec, xml = gen_ident(ctx.rng)
+        try:
+            schema = L.build_schema(spec)
+        except Exception as ex:  # noqa
+            ctx.count('ident-schema-rejected:' + type(ex).__name__)
+            continue
+        base = {'family': 'identity', 'xsd': spec.xsd, 'xml': xml.decode()}
+        try:
+            doc = Doc(schema, spec, xml)
+        except Exception as ex:  # noqa
+            ctx.count('ident-full-run-raises:' + type(ex).__name__)
+            continue
+        note_pollution(ctx, doc, base)
+        eg = doc.eg
+        n_ident = sum(1 for c in eg.canon if ident_text(c[1]))
+        ctx.count('ident-document:%s' % ('identity-errors' if n_ident else 'no-identity-error'))
+        reqs: list = []
+        pend: list = []
+        # one element of every kind under every instance of `a` (so that the 2nd and 3rd instances are reached by
+        # single-instance forms like a[2]/x too), all path forms
+        every = []
+        for a_ in eg.tree['cs']:
+            for kind in ('x', 'z', 'g', 'w', 'y'):
+                c = [i for i, d, _, n in eg.flat if eg.in_subtree(i, a_['id']) and local(n['tag']) == kind]
+                if c:
+                    every.append(ctx.rng.choice(c))
+        ctx.rng.shuffle(every)
+        check_partial(ctx, spec, doc, xml, reqs, pend, base,
+                      every=every[:ctx.pick(6, 10)] + [c['id'] for c in eg.tree['cs']][:2])
+        compare(ctx, reqs, pend, drv)
+
+
+# ------------------------------------------------------------------------------------------------
 # the same path strings on documents of different namespaces, interleaved in one process: a path denotes
 # element names only together with the namespace map it is used with (prefix -> URI, default namespace)
 TWIN_XSD = '''<xs:schema xmlns:xs="http://www.w3.org/2001/XMLSchema" targetNamespace="{ns}" xmlns:t="{ns}"
@@ -1442,7 +1822,7 @@ def run_one(ctx: Ctx, drv: Optional[Driver], xsd: str, xml: bytes, only: Optiona
             ctx.failure('path-driven run raised', case, repr(ex))
     check_find(ctx, spec, doc, reqs, pend, base)
     every = None
-    if base.get('family') == 'substitution':
+    if base.get('family') in ('substitution', 'identity'):
         every = [i for i, d, _, _ in doc.eg.flat if d >= 1 and doc.eg.gov.get(i) is not None]
     check_partial(ctx, spec, doc, xml, reqs, pend, base, every=every)
     check_depth(ctx, spec, doc, xml, reqs, pend, base)
@@ -1510,6 +1890,7 @@ def run(ctx: Ctx, driver_ok: bool) -> None:
     lean_witnesses(ctx)
     twin_namespaces(ctx)
     subst_family(ctx, drv)
+    identity_family(ctx, drv)
     family(ctx, drv)
 
 
@@ -1519,6 +1900,7 @@ def search(ctx: Ctx) -> None:
         ctx.tier = 'thorough'
         try:
             subst_family(ctx, None)
+            identity_family(ctx, None)
             if not ctx.failures:
                 family(ctx, None)
         finally:
